@@ -24,6 +24,8 @@ def materialise(world, dirpath, samples, build="hg19", profile_yaml=True, extra=
         ref["softclip"] = extra["ref_softclip"]
     if extra and extra.get("ref_random_ins"):
         ref["random_ins"] = extra["ref_random_ins"]
+    if extra and extra.get("ref_random_del"):
+        ref["random_del"] = extra["ref_random_del"]
     for g in world["genes"]:
         if g.get("no_reads"):
             ref["genes"].pop(g["name"], None)
